@@ -84,7 +84,7 @@ func c11Lists() []GOp {
 // c11UniverseU: names whose bytewise order differs from "looks like" order: 2-, 3- and 4-byte UTF-8
 // sequences (a supplementary-plane character sorts above every BMP character), the largest code
 // point, and a neighbour of the "directory" that sorts between "u/" and "u0".
-var c11UniverseU = []string{"u/a", "u/\u00e9", "u/\uffee", "u/\U0001F600.png", "u/\U0010FFFF", "u/\U0010FFFFz", "u0"}
+var c11UniverseU = []string{"u/a", "u/\u00e9", "u/\uffee", "u/\U0001F600.png", "u/\U0010FFFF", "u/\U0010FFFFz", "u0", "u/x..y", "u/xy"}
 
 func c11ListsU() []GOp {
 	var out []GOp
@@ -180,8 +180,15 @@ func c11RunSets(c *fw.Ctx, itemp *int64, subsets [][]string, lists []GOp) {
 			w := newGCSWorld(c, store, 1, nil)
 			okSetup := true
 			for i := range setup {
-				if m, cl := w.Step(&setup[i], false); m != "" {
-					c.Violate(fmt.Sprintf("C11:%s:%s:setup", store, cl), m, gcsCase{Store: store, Ops: setup[:i+1]}, nil)
+				// the bucket as a whole is compared with the model once, after the last upload (a replay compares after
+				// every request and reports the first request whose effect is wrong under the same signature)
+				if m, cl := w.Step(&setup[i], i == len(setup)-1); m != "" {
+					gc := gcsCase{Store: store, Ops: setup[:i+1]}
+					c.Violate(fmt.Sprintf("C11:%s:%s:%s", store, cl, c11Tag(&setup[i])), m+"\n  bucket contents: "+fmt.Sprintf("%q", names), gc, func() string {
+						b, _ := json.Marshal(gc)
+						s, _ := gcsReplay("C11", c11Tag)(c, b)
+						return s
+					})
 					okSetup = false
 					break
 				}
